@@ -10,7 +10,7 @@
                             zero (zm, zd = true) or without; is_sep: '/', '-' or '.'.
    norm_sep                 the separator rewriting of parse_date_mask_routine ('-' and '.' -> '/'). *)
 From LedgerV Require Import Base.Prelude Base.Calendar Gen.DateFormats Model.Dates
-  Proofs.CalendarProofs Proofs.DatesProofs.
+  Proofs.CalendarProofs Proofs.DatesProofs Proofs.DateNamesProofs.
 Local Open Scope Z_scope.
 
 (* ---- the calendar: day numbers and civil dates are inverse bijections, for all of Z ---- *)
@@ -262,7 +262,9 @@ Example md_examples :
 Proof. vm_compute. repeat split. Qed.
 
 (* the source facts the model rests on, re-read from times.cc on every run: the reader list, the
-   separator rewriting, the strlen guard, the written format, and that the cache of custom date
+   separator rewriting, the strlen guard, the written format, the presets of the struct tm handed to
+   strptime (current year - 1900, day 1), the one byte ('0') the re-format-and-compare loop may step
+   over (Model/Dates.v parse_routine and cmp_skip0 use these three), and that the cache of custom date
    formatters is keyed by the exact format string (so format_date raw dn is a function of raw and
    dn alone, as in the model, however many formats one run uses) *)
 Theorem source_facts :
@@ -272,7 +274,8 @@ Theorem source_facts :
   src_max_date_len = 127 /\ src_written_date_format = [37; 89; 47; 37; 109; 47; 37; 100] /\
   src_format_cache_exact_match = true /\
   src_year_directive_unconditional = true /\ src_year_directive_month = 12 /\ src_year_directive_day = 31 /\
-  src_file_end_unwinds_own_stack = true.
+  src_file_end_unwinds_own_stack = true /\
+  src_tm_year_base = 1900 /\ src_tm_mday_preset = 1 /\ src_compare_skip_byte = 48.
 Proof. split; [exact default_readers_eq | exact source_switches]. Qed.
 Print Assumptions source_facts.
 
@@ -325,3 +328,105 @@ Proof.
   - constructor. constructor; [constructor; apply Q; exact H | apply Q; exact H'].
 Qed.
 Print Assumptions include_keeps_year_directive.
+
+(* ---- month and weekday NAMES in a user-supplied --input-date-format (%b %h %B %a %A; strptime reads a
+   name in either form - the full name first - and in any letter case, for either directive; the
+   re-format-and-compare step of parse_date_mask_routine then admits only the very text the format
+   prints).
+
+   names_fmt_ok f: %Y %m %d %% %B %A and non-blank literals anywhere; an ABBREVIATED name (%b %h %a) only
+   where no letter can follow it (at the end, before a non-letter literal, before %Y %m %d).
+   has_mon f: the month is given by %m, %b, %B or %h.  Every such format reads back exactly the day
+   the same format prints - with the calendar's own weekday and month names in it. ---- *)
+Theorem names_format_roundtrip : forall raw cur y m d w,
+  names_fmt_ok (lex_fmt raw) ->
+  has_dir 89 (lex_fmt raw) = true -> has_mon (lex_fmt raw) = true -> has_dir 100 (lex_fmt raw) = true ->
+  valid_ymd y m d -> 1400 <= y <= 9999 ->
+  format_date raw (boost_day_number y m d) = Some w ->
+  parse_date [raw] cur w = DOk (boost_day_number y m d).
+Proof. exact parse_names_roundtrip. Qed.
+Print Assumptions names_format_roundtrip.
+
+(* the hypotheses are satisfiable: %a,%d-%b-%Y on 29 February 2024 = "Thu,29-Feb-2024" *)
+Example names_format_example :
+  let raw := [37; 97; 44; 37; 100; 45; 37; 98; 45; 37; 89] in
+  let txt := [84; 104; 117; 44; 50; 57; 45; 70; 101; 98; 45; 50; 48; 50; 52] in
+  names_fmt_ok (lex_fmt raw) /\ has_dir 89 (lex_fmt raw) = true /\ has_mon (lex_fmt raw) = true /\
+  has_dir 100 (lex_fmt raw) = true /\
+  format_date raw (boost_day_number 2024 2 29) = Some txt /\
+  parse_date [raw] (2021, 6, 15) txt = DOk (boost_day_number 2024 2 29).
+Proof.
+  cbn zeta. split.
+  - cbn. repeat split; auto 10.
+  - vm_compute. repeat split.
+Qed.
+
+(* the restriction on abbreviated names is needed: `%d%bch%Y` prints 16 March 2021 as "16March2021",
+   strptime's %b consumes the full name "March", the literal "ch" then meets "2021", the reader gives
+   up and no default reader takes the text (finding F-C14-N1; every other month is read) *)
+Theorem abbreviation_before_letters_refuted : exists raw y m d w,
+  has_dir 89 (lex_fmt raw) = true /\ has_mon (lex_fmt raw) = true /\ has_dir 100 (lex_fmt raw) = true /\
+  valid_ymd y m d /\ 1400 <= y <= 9999 /\
+  format_date raw (boost_day_number y m d) = Some w /\
+  parse_date [raw] (2021, 6, 15) w = DErr DInvalid /\
+  parse_date [raw] (2021, 6, 15) [49; 54; 65; 112; 114; 99; 104; 50; 48; 50; 49] = DOk (boost_day_number 2021 4 16).
+Proof.
+  exists [37; 100; 37; 98; 99; 104; 37; 89], 2021, 3, 16, [49; 54; 77; 97; 114; 99; 104; 50; 48; 50; 49].
+  vm_compute. repeat split; discriminate.
+Qed.
+Print Assumptions abbreviation_before_letters_refuted.
+
+(* ---- soundness for ANY user-supplied format with a year (whatever its directives): what its reader
+   accepts is a real day of 1400..9999, and the input is - up to omitted '0' characters - exactly the
+   text that format prints for that day.  So a weekday name that is not the day's own, a month name
+   that contradicts the month number, a name in another letter case or in its other form, and
+   trailing characters are all errors, never another day.  (Second alternative: the format's strptime
+   did not match at all and a default reader answered.) ---- *)
+Theorem custom_format_accepts_only_what_it_prints : forall raw cur s dn,
+  has_year raw = true ->
+  parse_date [raw] cur s = DOk dn ->
+  (exists y m d w, valid_ymd y m d /\ 1400 <= y <= 9999 /\ dn = boost_day_number y m d /\
+     format_date raw dn = Some w /\ cmp_skip0 w s = true /\ filter nz w = filter nz s) \/
+  (parse_routine false cur (mk_reader raw) s = RNone /\ parse_mask false cur default_readers s = DOk dn).
+Proof. exact parse_custom_sound. Qed.
+Print Assumptions custom_format_accepts_only_what_it_prints.
+
+(* the comparison forgives nothing but omitted zeros: the two texts agree on every other character,
+   in order, and the input is not longer than the formatted text *)
+Theorem compare_forgives_only_zeros : forall w s,
+  cmp_skip0 w s = true -> filter nz w = filter nz s /\ (length s <= length w)%nat.
+Proof. intros w s H. split; [apply cmp_skip0_filter | apply cmp_skip0_length]; exact H. Qed.
+Print Assumptions compare_forgives_only_zeros.
+
+(* how a name is read: the k-th name of the table in full whatever follows, its three-letter
+   abbreviation when no letter follows *)
+Theorem month_names_read : forall m rest, 1 <= m <= 12 ->
+  match_names month_names 0 (name_at month_names (m - 1) ++ rest) = Some (m - 1, rest) /\
+  (no_alpha_head rest ->
+   match_names month_names 0 (firstn 3 (name_at month_names (m - 1)) ++ rest) = Some (m - 1, rest)).
+Proof. intros m rest H. split; [apply read_month_full | intros N; apply read_month_abbrev]; assumption. Qed.
+Print Assumptions month_names_read.
+
+Theorem weekday_names_read : forall w rest, 0 <= w < 7 ->
+  match_names wday_names 0 (name_at wday_names w ++ rest) = Some (w, rest) /\
+  (no_alpha_head rest ->
+   match_names wday_names 0 (firstn 3 (name_at wday_names w) ++ rest) = Some (w, rest)).
+Proof. intros w rest H. split; [apply read_wday_full | intros N; apply read_wday_abbrev]; assumption. Qed.
+Print Assumptions weekday_names_read.
+
+(* computed instances (2021-06-15 is a Tuesday): the weekday of another day, another letter case, the
+   full name where the format has %b, a month name against the month number, 30 February by name *)
+Example names_rejected_examples :
+  let p f s := parse_date_ymd [f] (2021, 6, 15) s in
+  let f1 := [37; 89; 47; 37; 109; 47; 37; 100; 44; 37; 97] (* %Y/%m/%d,%a *) in
+  let f2 := [37; 100; 45; 37; 98; 45; 37; 89] (* %d-%b-%Y *) in
+  let f3 := [37; 89; 46; 37; 109; 46; 37; 100; 46; 37; 98] (* %Y.%m.%d.%b *) in
+  p f1 [50;48;50;49;47;48;54;47;49;53;44;84;117;101] = DOk (2021, 6, 15) (* 2021/06/15,Tue *) /\
+  p f1 [50;48;50;49;47;48;54;47;49;53;44;77;111;110] = DErr DInvalid      (* 2021/06/15,Mon *) /\
+  p f1 [50;48;50;49;47;48;54;47;49;53;44;116;117;101] = DErr DInvalid     (* 2021/06/15,tue *) /\
+  p f2 [49;53;45;74;117;110;45;50;48;50;49] = DOk (2021, 6, 15)           (* 15-Jun-2021 *) /\
+  p f2 [49;53;45;74;117;110;101;45;50;48;50;49] = DErr DInvalid           (* 15-June-2021 *) /\
+  p f2 [49;53;45;74;85;78;45;50;48;50;49] = DErr DInvalid                 (* 15-JUN-2021 *) /\
+  p f2 [51;48;45;70;101;98;45;50;48;50;49] = DErr DBadDay                 (* 30-Feb-2021 *) /\
+  p f3 [50;48;50;49;46;48;54;46;49;53;46;74;117;108] = DErr DInvalid      (* 2021.06.15.Jul *).
+Proof. vm_compute. repeat split. Qed.
